@@ -111,6 +111,7 @@ type c19Case struct {
 	outLink    string // when set: the -o argument is this symbolic link, which points to outDir
 	inLink     bool   // the -i argument is a symbolic link (via/<name>) to the input file, which lies where inputName says
 	inLinkName string // when set: the -i argument is via/<inLinkName>, a symbolic link to the input file (another name than the file's)
+	fromPipe   bool   // the -i argument is /dev/stdin, fed through a pipe (readable, but not a regular file)
 	staleTwin  bool   // the stale outputs have the size of the new outputs and are newer than the input
 	invoke     string // "" = absolute path of the binary, "path" = bare name found through PATH, "symlink" = through a symbolic link in the work directory, "relative" = relative path from a sub directory
 	badArgs    []string // complete argument list for bad-option cases (placeholders IN, OUT)
@@ -170,6 +171,12 @@ func checkC19(c *Check) {
 				continue
 			}
 			cases = append(cases, c19Case{key: fmt.Sprintf("input-link-other-name/%s/link=%s", p.name, hexKey(ln)), prog: p, inputName: "real/prog-v2.tsh", outDir: "out", targets: tsets[(pi+li)%4], argOrder: "iot", inLinkName: ln, stale: li == 0})
+		}
+	}
+	// the input is a pipe (-i /dev/stdin): readable like any file, the output is named after "stdin"
+	for pi, p := range progs {
+		if len(p.files) == 1 && pi < 6 {
+			cases = append(cases, c19Case{key: fmt.Sprintf("input-from-pipe/%s", p.name), prog: p, inputName: "main.tsh", outDir: "out", targets: tsets[pi%2], argOrder: "iot", fromPipe: true}) // one target only: a pipe can be read once
 		}
 	}
 	// repeated targets and every program once with the plain command line (always)
@@ -320,6 +327,9 @@ func c19Run(c *Check, cs c19Case, straceOK bool) {
 		os.Symlink(rel, filepath.Join(work, "via", cs.inLinkName))
 		base = cs.inLinkName[:len(cs.inLinkName)-len(filepath.Ext(cs.inLinkName))]
 	}
+	if cs.fromPipe {
+		base = "stdin"
+	}
 	expectFiles := map[string]string{} // relative to work -> expected content, for successful targets
 	earlyRefs := map[string]TResult{}
 	if cs.staleTwin {
@@ -401,6 +411,9 @@ func c19Run(c *Check, cs c19Case, straceOK bool) {
 		if cs.inLinkName != "" {
 			inArg = filepath.Join("via", cs.inLinkName)
 		}
+		if cs.fromPipe {
+			inArg = "/dev/stdin"
+		}
 		if cs.inLink {
 			os.MkdirAll(filepath.Join(work, "via"), 0o755)
 			rel, _ := filepath.Rel(filepath.Join(work, "via"), inAbs)
@@ -469,6 +482,9 @@ func c19Run(c *Check, cs c19Case, straceOK bool) {
 		cmd = exec.Command(link, args...)
 		cmd.Dir = work
 		before[".tsh-link"] = stampTree(work)[".tsh-link"]
+	}
+	if cs.fromPipe {
+		cmd.Stdin = strings.NewReader(cs.prog.files["main.tsh"]) // os/exec feeds a reader through a pipe
 	}
 	var outb, errb strings.Builder
 	cmd.Stdout = &outb
